@@ -727,6 +727,7 @@ class Facts:
         if not os.environ.get("VERIF_NO_INLINE"):
             import inline
             self.inlined = inline.run(self)
+            self.merged = inline.merge_private_helpers(self) if not os.environ.get("VERIF_NO_MERGE_HELPERS") else {}
 
     # ---- lookup ------------------------------------------------------------------------------
     def fn(self, name):
